@@ -31,6 +31,8 @@ mod method;
 mod method_context;
 mod session;
 mod user_pref;
+#[cfg(chokan_verif)]
+mod verif;
 
 #[derive(Debug, Parser)]
 #[command(version, about, long_about = None)]
@@ -116,7 +118,11 @@ fn spawn_save_user_pref_per_count(pref: Arc<Mutex<UserPref>>, tx: Receiver<()>) 
     tokio::task::spawn_blocking(move || {
         loop {
             if let Ok(()) = tx.recv() {
+                #[cfg(chokan_verif)]
+                verif::point("saver.before_pref_lock");
                 let pref = pref.lock().unwrap();
+                #[cfg(chokan_verif)]
+                verif::count(&verif::SAVES_DONE);
                 match pref.save_user_dictionary() {
                     Ok(()) => {
                         tracing::debug!("User dictionary saved");
@@ -162,11 +168,17 @@ fn spawn_update_dictionary_with_entry(
         loop {
             if let Ok(entry) = tx.recv() {
                 {
+                    #[cfg(chokan_verif)]
+                    verif::point("updater.before_pref_lock");
                     let mut user_pref = user_pref.lock().unwrap();
                     user_pref.user_dictionary_mut().add_entry(entry.clone());
                 }
 
+                #[cfg(chokan_verif)]
+                verif::point("updater.before_dict_lock");
                 let mut dict = dict.lock().unwrap();
+                #[cfg(chokan_verif)]
+                verif::point("updater.in_dict_lock");
                 let words: Vec<Word> = entry.into();
 
                 for word in words {
@@ -178,7 +190,11 @@ fn spawn_update_dictionary_with_entry(
                         .entry(reading)
                         .and_modify(|v| v.push(word.clone()))
                         .or_insert(vec![word]);
+                    #[cfg(chokan_verif)]
+                    verif::point("updater.after_word");
                 }
+                #[cfg(chokan_verif)]
+                verif::count(&verif::ENTRIES_APPLIED);
             }
         }
     })
@@ -215,6 +231,8 @@ fn define_module(
     method::make_register_word(&mut module, entry_sender.clone())?;
     method::make_get_proper_candidates_method(&mut module, store.clone())?;
     method::make_get_alphabetic_candidate_method(&mut module)?;
+    #[cfg(chokan_verif)]
+    verif::register(&mut module, store.clone())?;
 
     spawn_save_user_pref_per_count(user_pref.clone(), conversion_reciever);
     spawn_update_dictionary_with_entry(dictionary.clone(), user_pref.clone(), entry_reciever);
